@@ -3,7 +3,7 @@ import vlib, s1, gen, s1eval
 
 PROP = "C05"
 EDITS = ["none", "deldir", "flip", "truncate", "append", "addfile", "adddir", "delete", "rename", "relink", "dangle", "swap_f2d",
-         "swap_d2f", "below_norec", "uncopy", "rmobj", "rmart", "checkout_other"]
+         "swap_d2f", "below_norec", "uncopy", "rmobj", "rmart", "checkout_other", "lookalike", "movecache"]
 
 
 def make_cases(rng, tier, n):
@@ -61,6 +61,14 @@ def make_cases(rng, tier, n):
                 ops.append(("uncopy", rng.choice(tracked)[1]))
             else:
                 edit = "none"
+        elif edit == "lookalike" and files and strat == "l":
+            tracked = [f for f in files if any(f[1] == p or f[1].startswith(p + b"/") for p, fl, sp in arts if "s" not in fl and "r" not in fl)]
+            if tracked:
+                ops.append(("lookalike", rng.choice(tracked)[1]))
+            else:
+                edit = "none"
+        elif edit == "movecache" and c.get("cache") != "shm":
+            ops.append(("movecache",))
         elif edit == "rmobj":
             ops.append(("rmobj", rng.randrange(50)))
         elif edit == "rmart" and arts:
@@ -155,6 +163,41 @@ def finding_of(run, tag, text):
     return None
 
 
+def same_stream(R, dud, drv, rng, tier, runs):
+    """fsutil.SameContents around its 8 MiB buffer, in-process, against byte equality; the Lean loop model on scaled-down analogues"""
+    import subprocess
+    h = vlib.build_harness("inproc")
+    M = 8 << 20
+    lines, want = [], []
+    sizes = [0, 1, 1000, M - 1, M, M + 1] + ([2 * M - 1, 2 * M, 2 * M + 1, 3 * M + 5] if tier == "thorough" else [2 * M + 1])
+    for la in sizes:
+        for lb in {la, max(0, la - 1), la + 1, la + M}:
+            lines.append("%d %d 7 -1" % (la, lb)); want.append("1" if la == lb else "0")
+        for off in {0, la // 2, la - 1, M - 1, M, M + 1, la - M - 1}:
+            if 0 <= off < la:
+                lines.append("%d %d 7 %d" % (la, la, off)); want.append("0")
+    p = subprocess.run([h, "same"], input=("\n".join(lines) + "\n").encode(), stdout=subprocess.PIPE, stderr=subprocess.PIPE, timeout=1200)
+    got = p.stdout.decode().split()
+    bad = [(l, g, w_) for l, g, w_ in zip(lines, got, want) if g != w_]
+    for l in lines:
+        R.count("same-" + l, True)
+    if bad or len(got) != len(lines):
+        R.violation(dict(kind="property-violated-on-implementation", scenario="fsutil.SameContents(lenA lenB seed flipOffset)",
+                         violations=["%s: SameContents says %s, byte equality says %s" % b for b in bad[:6]] or ["harness produced %d of %d answers" % (len(got), len(lines))]))
+    # the Lean loop model with small buffers (theorem sameContents_eq covers every B > 0; this is a sanity tie of the executable definition)
+    ml, mw = [], []
+    for B in (1, 2, 3, 8):
+        for la in range(0, 2 * B + 3):
+            a = bytes((i * 7 + 1) & 0xFF for i in range(la))
+            for b in (a, a[:-1], a + b"\x00", a[:la // 2] + bytes([a[la // 2] ^ 1]) + a[la // 2 + 1:] if la else a, a + bytes(B)):
+                ml.append("%d %s %s" % (B, a.hex() or "-", b.hex() or "-")); mw.append("1" if a == b else "0")
+    p = subprocess.run([drv, "same"], input=("\n".join(ml) + "\n").encode(), stdout=subprocess.PIPE)
+    mg = p.stdout.decode().split()
+    if mg != mw:
+        R.violation(dict(kind="model-implementation-disagreement", stream="Same", detail="the executable Lean loop disagrees with byte equality"), nofail=True)
+    R.cov["same_contents_cases"] = len(lines)
+
+
 def main(tier, replay=None):
     return s1eval.generic_main(PROP, tier, replay, make_cases, oracle, finding_of,
                                nontrivial=lambda run: run["case"].get("edit") != "none" or True,
@@ -162,4 +205,4 @@ def main(tier, replay=None):
                                     "compared per artifact with an independent diff of the workspace against the committed snapshot; "
                                     "non-trivial: every case (edit kind recorded in the distribution); distinct by case id" % len(EDITS),
                                trusted=["regular-file read semantics (min(B, remaining) bytes, EOF only with 0 bytes)"], seed_salt=5,
-                               n_quick=150, n_thorough=2000)
+                               n_quick=150, n_thorough=2000, extra=same_stream)
